@@ -39,7 +39,14 @@ def main():
     seed = int(os.environ.get('VERIF_SEED', '0') or 0)
     mod = importlib.import_module(f'harness.{pid.lower()}')
     if replay:
-        sys.exit(mod.replay_file(replay))
+        try:
+            code = mod.replay_file(replay)
+        except Exception:
+            # the replay itself broke (a harness error, not behaviour of /repo): never counted as a reproduction
+            import traceback
+            traceback.print_exc()
+            code = 2
+        sys.exit(code)
     sys.exit(mod.main(tier, seed))
 
 
